@@ -33,6 +33,7 @@ class Walk:
         self.overlap = {}         # sha -> {path: lines added by the commit AND modified again (unstaged) at commit time}
         self.human_inplace = set()  # files in which a person rewrote/modified lines in place
         self.recon_taint = set()    # ... and that then went through an attribution reconstruction
+        self.ai_lines = {}          # path -> session -> texts (normalised) the session wrote into that file
 
     # ---------------------------------------------------------------- helpers
     def files(self):
@@ -108,6 +109,7 @@ class Walk:
         if who != "human":
             for t in new_texts:
                 self.wrote[who].add(norm(t))
+                self.ai_lines.setdefault(p, {}).setdefault(who, set()).add(norm(t))
             self.r.ai_checkpoint(who, [p], tool=S.TOOL)
         if who == "human" and kind != "reindent":
             # inserting next to / deleting / replacing AI lines can all amount to rewriting them in place
@@ -238,6 +240,7 @@ class Walk:
         if who != "human":
             for t in new_texts:
                 self.wrote[who].add(norm(t))
+                self.ai_lines.setdefault(p, {}).setdefault(who, set()).add(norm(t))
             self.r.ai_checkpoint(who, [p], tool=S.TOOL)
         else:
             self.human_inplace.add(p)
@@ -378,10 +381,19 @@ class Walk:
             m = re.match(r"^(.*) m\d+$", m.group(1))
         return False
 
+    def session_line_gone(self, p, base, s):
+        """session `s` wrote a line into this file that is no longer there (a person rewrote or deleted it),
+        or the credited text itself is a person's modification of the session's line"""
+        now = {norm(l) for l in self.read_lines(p)}
+        mine = set()
+        for q in (p, base, p + ".moved"):
+            mine |= self.ai_lines.get(q, {}).get(s, set())
+        return any(t not in now for t in mine)
+
     def fail(self, kind, where, sha, p, ln, text, s):
         base = p[:-6] if p.endswith(".moved") else p
         if text is not None and (text.lstrip().startswith("hum-") or self.is_tweak_of_own(text, s)) and \
-                (p in self.recon_taint or base in self.recon_taint):
+                (p in self.recon_taint or base in self.recon_taint) and self.session_line_gone(p, base, s):
             sig = "reconstruction-keeps-ai-on-line-rewritten-by-person"
         elif (kind == "note" and ln in self.overlap.get(sha, {}).get(p, set())) or \
                 (kind == "blame" and any(p in ov or base in ov for ov in self.overlap.values())):
@@ -446,6 +458,7 @@ def replay_steps(steps):
                     for l in st["content"]:
                         if norm(l) not in old:
                             w.wrote[who].add(norm(l))
+                            w.ai_lines.setdefault(p, {}).setdefault(who, set()).add(norm(l))
                     r.ai_checkpoint(who, [p], tool=S.TOOL)
             elif st["op"] == "git":
                 rc = w.git(*st["args"])
